@@ -939,7 +939,101 @@ keep_site!(ks_rd_fsb, |x| { let _ = std::hint::black_box(FS::read_base()); let _
 keep_site!(ks_rd_cs, |x| { let _ = std::hint::black_box(CS::get_reg()); let _ = x; });
 keep_site!(ks_rd_xcr0, |x| { let _ = std::hint::black_box(XCr0::read_raw()); let _ = x; });
 
+// Call sites that keep a condition alive in the arithmetic flags across the wrapper: a counter is decremented (setting ZF), the
+// wrapper runs, and only then the code branches on "counter reached zero". The wrappers promise not to touch the arithmetic flags
+// (the compiler relies on it in optimised builds); the branch taken must be the one the counter dictates whatever the register holds.
+macro_rules! flag_site {
+    ($name:ident, |$x:ident| $body:expr) => {
+        #[inline(never)]
+        fn $name(counter: &mut u64, $x: u64) -> (u64, u64) {
+            *counter -= 1;
+            let zero = *counter == 0;
+            #[allow(unused_unsafe)]
+            let v: u64 = unsafe { $body };
+            // the branch needs the wrapper's result, so it cannot move in front of the wrapper; its bodies have side effects,
+            // so it cannot become a conditional move
+            let mut out = [0u64; 2];
+            if zero {
+                unsafe { core::ptr::write_volatile(&mut out[0], v) };
+                flag_site_expired(&mut out);
+            } else {
+                unsafe { core::ptr::write_volatile(&mut out[0], v) };
+                unsafe { core::ptr::write_volatile(&mut out[1], 0x5555) };
+            }
+            (unsafe { core::ptr::read_volatile(&out[0]) }, unsafe { core::ptr::read_volatile(&out[1]) })
+        }
+    };
+}
+#[inline(never)]
+fn flag_site_expired(out: &mut [u64; 2]) {
+    unsafe { core::ptr::write_volatile(&mut out[1], 0xaaaa) };
+}
+flag_site!(fl_xcr0, |_x| XCr0::read_raw());
+flag_site!(fl_cr0, |_x| Cr0::read_raw());
+flag_site!(fl_cr2, |_x| Cr2::read_raw());
+flag_site!(fl_cr3, |_x| Cr3::read_raw().0.start_address().as_u64());
+flag_site!(fl_cr4, |_x| Cr4::read_raw());
+flag_site!(fl_dr6, |_x| Dr6::read_raw());
+flag_site!(fl_dr7, |_x| Dr7::read_raw());
+flag_site!(fl_dr1, |_x| Dr1::read());
+flag_site!(fl_efer, |_x| Efer::read_raw());
+flag_site!(fl_msr, |_x| Msr::new(0xc000_0103).read());
+flag_site!(fl_fsb, |_x| FS::read_base().as_u64());
+flag_site!(fl_gsb, |_x| GS::read_base().as_u64());
+flag_site!(fl_cs, |_x| CS::get_reg().0 as u64);
+flag_site!(fl_ss, |_x| SS::get_reg().0 as u64);
+flag_site!(fl_rflags, |_x| rflags::read_raw() & 0);
+flag_site!(fl_mxcsr, |_x| mxcsr::read().bits() as u64);
+flag_site!(fl_w_cr0, |x| { Cr0::write_raw(x); x });
+flag_site!(fl_w_cr4, |x| { Cr4::write_raw(x); x });
+flag_site!(fl_w_dr7, |x| { Dr7::write_raw(x); x });
+flag_site!(fl_w_dr2, |x| { Dr2::write(x); x });
+flag_site!(fl_w_xcr0, |x| { XCr0::write_raw(x); x });
+flag_site!(fl_w_efer, |x| { Efer::write_raw(x); x });
+flag_site!(fl_w_msr, |x| { Msr::new(0xc000_0103).write(x); x });
+flag_site!(fl_w_fsb, |x| { FS::write_base(VirtAddr::new_truncate(x)); x });
+flag_site!(fl_w_ds, |x| { DS::set_reg(SegmentSelector(x as u16)); x });
+flag_site!(fl_w_gs, |x| { GS::set_reg(SegmentSelector(x as u16)); x });
+flag_site!(fl_w_mxcsr, |x| { mxcsr::write(MxCsr::from_bits_truncate(x as u32 & 0xffbf)); x });
+flag_site!(fl_swapgs, |x| { GS::swap(); x });
+
+fn flag_sites(t: &mut T) {
+    let sites: &[(&str, fn(&mut u64, u64) -> (u64, u64))] = &[
+        ("XCr0::read_raw", fl_xcr0), ("Cr0::read_raw", fl_cr0), ("Cr2::read_raw", fl_cr2), ("Cr3::read_raw", fl_cr3), ("Cr4::read_raw", fl_cr4), ("Dr6::read_raw", fl_dr6), ("Dr7::read_raw", fl_dr7),
+        ("Dr1::read", fl_dr1), ("Efer::read_raw", fl_efer), ("Msr::read", fl_msr), ("FS::read_base", fl_fsb), ("GS::read_base", fl_gsb), ("CS::get_reg", fl_cs), ("SS::get_reg", fl_ss),
+        ("rflags::read_raw", fl_rflags), ("mxcsr::read", fl_mxcsr), ("Cr0::write_raw", fl_w_cr0), ("Cr4::write_raw", fl_w_cr4), ("Dr7::write_raw", fl_w_dr7), ("Dr2::write", fl_w_dr2),
+        ("XCr0::write_raw", fl_w_xcr0), ("Efer::write_raw", fl_w_efer), ("Msr::write", fl_w_msr), ("FS::write_base", fl_w_fsb), ("DS::set_reg", fl_w_ds), ("GS::set_reg", fl_w_gs),
+        ("mxcsr::write", fl_w_mxcsr), ("GS::swap", fl_swapgs),
+    ];
+    for &(name, f) in sites {
+        // register images: all-zero and non-zero (whatever a stray flag-writing instruction would compute from them)
+        for image in [0u64, 0x33, u64::MAX & 0x0000_7fff_ffff_f000] {
+            for start in [1u64, 2, 3] {
+                let c = cpu();
+                c.cr = [image; 16];
+                c.dr = [image; 16];
+                c.xcr0 = image | 1;
+                c.mxcsr = (image as u32) & 0xffbf;
+                c.msr_set(MSR_EFER, image);
+                c.msr_set(0xc000_0103, image);
+                c.msr_set(MSR_FS_BASE, image);
+                c.msr_set(MSR_GS_BASE, image);
+                c.sel = [image as u16; 6];
+                use std::hint::black_box as bb;
+                let mut counter = bb(start);
+                let (rv, _) = stepped(|| f(&mut counter, bb(image)));
+                t.r.ev(true);
+                let want = if start == 1 { 0xaaaa } else { 0x5555 };
+                if rv.map(|x| x.1) != Ok(want) || counter != start - 1 {
+                    t.bad(name, "condition-computed-before-the-wrapper-is-wrong-after-it-(arithmetic-flags-not-preserved)", &format!("{} site(flags-live, counter {}, image {:#x})", name, start, image), format!("{:x?} expected branch {:#x}", rv, want));
+                }
+            }
+        }
+    }
+}
+
 fn seq_and_sites(t: &mut T, _a: &Args) {
+    flag_sites(t);
     let vs: [[u64; 3]; 3] = [[0x8005_0033, 0x11, 0x8000_0000_0005_0033], [0, u64::MAX, 0x5a5a_5a5a_a5a5_a5a5], [0x0123_4567_89ab_cdef, 0xfedc_ba98_7654_3210, 1]];
     for v in vs {
         rwr!(t, "Cr0", |x| cpu().cr[0] = x, || Cr0::read_raw(), |x| unsafe { Cr0::write_raw(x) }, v);
